@@ -97,7 +97,8 @@ PLANS = {
     "C01": {
         "level": "proof",
         "sidecars": ["params", "charges", "driver"],
-        "extras": [{"name": "c01_provenance_table", "module": "tables.x_checks", "func": "c01_provenance", "python": "vt"}],
+        "extras": [{"name": "c01_provenance_table", "module": "tables.x_checks", "func": "c01_provenance", "python": "vt"},
+                   {"name": "c01_names", "module": "bounded.c01_names", "func": "run", "python": "venv"}],
         "explanation": "lookup = table entry or (None, None); apply_force_field partitions atoms into written/unassigned "
                        "with the state-qualified key; non_trivial serialises exactly the written list; shipped data X",
     },
